@@ -59,3 +59,69 @@ package types
 //@   sets disp_fwd_coin = packet.TransferAttributes.destinationCoin
 //@   modifies bank, events, fwdcalls, fwd_ctrl, fwd_pkt, disp_fwd_ta, disp_fwd_fw, disp_fwd_coin, out_n, out_kind, out_cctp, out_cctpc, out_hyp, out_send
 //@   ensures[C06] true
+
+// ---------------------------------------------------------------------------------------------
+// The payload adapter behind the IBC middleware (interface-level contracts, implemented by the
+// adapter component; the middleware is verified against these only)
+// ---------------------------------------------------------------------------------------------
+
+// Vocabulary over a cross-chain packet as the middleware builds it (IBC): its ICS-20 data is a
+// function of the bytes; "for orbiter" is the code's classification (receiver string equals the
+// module address in bech32).
+//@ macro ccIBC(cc) = cast(cc, "*types/component/adapter.IBCCrossChainPacket")
+//@ macro ccIsIBC(cc) = istype(cc, "*types/component/adapter.IBCCrossChainPacket") && ccIBC(cc) != nil
+//@ macro ccData(cc) = ics20Of(bytesof(ccIBC(cc).data))
+//@ macro ccIsICS20(cc) = isICS20(bytesof(ccIBC(cc).data))
+//@ macro ccForOrb(cc) = ccIsICS20(cc) && okAddr(ccData(cc).Receiver) && decodeAddr(ccData(cc).Receiver) == core.ModuleAddress
+//@ macro ccDenom(cc) = substr(ccData(cc).Denom, strlen(denomPrefix(ccIBC(cc).sourcePort, ccIBC(cc).sourceChannel)), strlen(ccData(cc).Denom) - strlen(denomPrefix(ccIBC(cc).sourcePort, ccIBC(cc).sourceChannel)))
+
+//@ func (self PayloadAdapter) AdaptPacket(ctx, id, packet) (op, err)
+//@   requires[base] packet != nil
+//@   ensures[base]  err == nil ==> op != nil && op.TransferAttributes != nil && taOK(op.TransferAttributes) && op.Payload != nil && payloadOK(op.Payload)
+//@   ensures[base]  op != nil ==> err == nil
+//@   ensures[base]  err == nil ==> fresh(op) && fresh(op.TransferAttributes)
+//@   ensures[C07,C01,C03] ccIsIBC(packet) && id.ProtocolId == core.PROTOCOL_IBC && !ccForOrb(packet) ==> op == nil && err != nil && rootErr(err) == core.ErrNoOrbiterPacket
+//@   ensures[C01,C07,C03,C16] err != nil && rootErr(err) == core.ErrNoOrbiterPacket ==> ccIsIBC(packet) && !ccForOrb(packet)
+//@   ensures[C01,C02,C11,C16] err == nil ==> ccIsIBC(packet) && ccForOrb(packet) && prefixof(denomPrefix(ccIBC(packet).sourcePort, ccIBC(packet).sourceChannel), ccData(packet).Denom) &&
+//@                  tracePath(ccDenom(packet)) == "" && okInt(ccData(packet).Amount) &&
+//@                  op.TransferAttributes.destinationCoin.Denom == ccDenom(packet) && val(op.TransferAttributes.destinationCoin.Amount) == parseInt(ccData(packet).Amount) &&
+//@                  op.TransferAttributes.sourceCoin == op.TransferAttributes.destinationCoin
+//@   ensures[C12]   err == nil ==> op.TransferAttributes.sourceID == id
+
+// Before the ICS-20 credit: the passthrough limit is enforced first (nothing moves when it refuses),
+// then the orbiter balance of the transferred denomination is swept to the dust collector.
+//@ macro dustAddr() = moduleAddr(core.DustCollectorName)
+//@ macro opDenom(op) = op.TransferAttributes.destinationCoin.Denom
+//@ func (self PayloadAdapter) BeforeTransferHook(ctx, packet) (err)
+//@   requires[base] packet != nil && packet.TransferAttributes != nil && taOK(packet.TransferAttributes) && packet.Payload != nil && payloadOK(packet.Payload)
+//@   modifies bank
+//@   ensures[C01,C02,C11] err == nil ==> bank == moveIf(bal(old(bank), core.ModuleAddress, opDenom(packet)) > 0, old(bank), core.ModuleAddress, dustAddr(), opDenom(packet), bal(old(bank), core.ModuleAddress, opDenom(packet)))
+//@   ensures[C03,C07,C18] err != nil ==> bank == old(bank)
+
+//@ func (self PayloadAdapter) AfterTransferHook(ctx, packet) (err)
+//@   ensures[base] true
+
+// After the ICS-20 credit: dispatch the payload. (Property-specific clauses are added per property.)
+//@ func (self PayloadAdapter) ProcessPayload(ctx, packet) (err)
+//@   requires[base] packet != nil && packet.TransferAttributes != nil && taOK(packet.TransferAttributes) && packet.Payload != nil && payloadOK(packet.Payload)
+//@   modifies ghosts, packet.TransferAttributes.destinationCoin
+//@   ensures[C01] err == nil ==> bal(bank, core.ModuleAddress, old(opDenom(packet))) == 0
+//@   ensures[C01] err == nil ==> forall d string :: d != old(opDenom(packet)) ==> bal(bank, core.ModuleAddress, d) <= bal(old(bank), core.ModuleAddress, d)
+//@   ensures[C07] wrapped_n == old(wrapped_n) && wrapped_ret == old(wrapped_ret)
+
+// The adapter controller behind the adapter's router (implemented by the IBC adapter).
+//@ func (self AdapterController) ParsePacket(ccPacket) (result, err)
+//@   ensures[base] err == nil ==> result != nil && payloadFieldsOK(result.Payload) && !isnil(result.Coin.Amount)
+//@   ensures[base] err == nil ==> fresh(result)
+//@   ensures[C07,C01,C03] ccIsIBC(ccPacket) && !ccForOrb(ccPacket) ==> err != nil && rootErr(err) == core.ErrNoOrbiterPacket
+//@   ensures[C01,C07,C03,C16] err != nil && rootErr(err) == core.ErrNoOrbiterPacket ==> ccIsIBC(ccPacket) && !ccForOrb(ccPacket)
+//@   ensures[C01,C02,C11,C16] err == nil ==> ccIsIBC(ccPacket) && ccForOrb(ccPacket) && prefixof(denomPrefix(ccIBC(ccPacket).sourcePort, ccIBC(ccPacket).sourceChannel), ccData(ccPacket).Denom) &&
+//@                  tracePath(ccDenom(ccPacket)) == "" && okInt(ccData(ccPacket).Amount) && result.Coin.Denom == ccDenom(ccPacket) && val(result.Coin.Amount) == parseInt(ccData(ccPacket).Amount)
+
+// The dispatcher behind the adapter (implemented by the dispatcher component).
+//@ func (self PayloadDispatcher) DispatchPayload(ctx, transferAttr, payload) (err)
+//@   requires[base] transferAttr != nil && taOK(transferAttr)
+//@   modifies ghosts, transferAttr.destinationCoin
+//@   ensures[C01] err == nil ==> bal(bank, core.ModuleAddress, old(transferAttr.destinationCoin.Denom)) == 0
+//@   ensures[C01] err == nil ==> forall d string :: d != old(transferAttr.destinationCoin.Denom) ==> bal(bank, core.ModuleAddress, d) <= bal(old(bank), core.ModuleAddress, d)
+//@   ensures[C07] wrapped_n == old(wrapped_n) && wrapped_ret == old(wrapped_ret)
